@@ -4,7 +4,7 @@ from . import base
 from .C09 import tree_paths, reference_graph, has_cycle, navigate, final_target
 from .C15 import permute
 
-THEOREMS = ['C10_at_most_once', 'C10_memo_invariant', 'C10_same_object']
+THEOREMS = ['C10_at_most_once', 'C10_memo_invariant', 'C10_same_object', 'C10_exactly_once', 'C10_wellformed_trees']
 
 
 def canon(v, ids=None):
